@@ -508,7 +508,7 @@ def run(ctx):
     ctx.coverage['exhaustive'] = False
     ctx.trusted_base += ['Coq 8.16.1 kernel + vm_compute', 'extraction (ExtrOcamlBasic only), ocaml/conv.ml + c18_driver.ml',
                          'payload classes (cls().unpack / get_p1_time) are a parameter p1 of the model: the theorems hold for every p1; the correspondence run fills it with the values the library computes on the exact payload bytes (codec = C01)',
-                         'fast_generate_index(input) = index of the sequential scan is C08 (assumed by the model for the input file; held here by correspondence on files of one block with messages <= 16 KiB)',
+                         'fast_generate_index(input) = index of the sequential scan: C08 theorem index_is_scan_for_every_worker_count, composed with this model in Proofs/SystemLinkP.v (C18_extract_via_fast_index) under the 16 KiB precondition; the C08 development is part of the compiled closure',
                          'numpy: list -> structured array, astype to the raw dtype, tofile/fromfile (modelled: u4/u2/u8 little-endian records)',
                          'hand transcription of extract_fusion_engine_log / FileIndexBuilder / FileIndex.save / MixedLogReader._read_next control flow, held by correspondence',
                          'translators/gen_fe.py, translators/gen_c09.py (constants, record layout)', 'harness/py/c18_impl.py, generator in props/c18.py']
